@@ -1131,6 +1131,9 @@ class OrderedMultiDict(dict):
         """
         if not v:
             return
+        v = list(v)  # *v* may be a one-shot iterable: walk it exactly once
+        if not v:
+            return
         self_insert = self._insert
         values = super().setdefault(k, [])
         for subv in v:
